@@ -1,8 +1,9 @@
 """C08 is decided on two layers: the shutdown state machine (signal -> quit dispatch -> stop of every watcher ->
-loop stop -> sockets closed) on the core model, and the pid file (harness/props/c08_pidfile.py)."""
+loop stop -> sockets closed) on the core model, the pid file (harness/props/c08_pidfile.py) and the managed sockets and their
+unix-socket files (harness/props/c08_sockets.py, the sockets layer of C07 with reloadconfig and quit)."""
 from harness.corecheck import make
-from harness.props import c08_pidfile
+from harness.props import c08_pidfile, c08_sockets
 PARTS = [make("C08", ["CircusProofs/Props/C08.lean"],
               ["CircusProofs/Core/Pres.lean", "CircusProofs/Core/KStep.lean", "CircusProofs/Core/Generic.lean", "CircusProofs/Core/SlotFree.lean", "CircusProofs/Core/NoClose.lean", "CircusProofs/Core/ArbInv.lean", "CircusProofs/Core/Init.lean",
                "CircusProofs/Props/C02.lean", "CircusProofs/Props/C06.lean"]),
-         c08_pidfile]
+         c08_pidfile, c08_sockets]
